@@ -352,14 +352,23 @@ func (au *audition) checkEvent(ctx context.Context, final bool, ev sigEvent) err
 	// auditors in the loop.
 	for _, audienceName := range au.cfg.audienceNames {
 		as, ok := au.st.auditorStates[audienceName]
-		if !ok || !(as.activated || (final && as.auditing)) {
+		if !ok {
+			continue
+		}
+		am := au.cfg.audience[audienceName]
+		// An auditor whose activation condition depends on nothing
+		// (e.g. "audits throughout") does not wait for one of the
+		// variables of its other expressions to be assigned before its
+		// period starts: otherwise an expectation about a signal that
+		// never arrives would never be judged.
+		startsUnprompted := !final && !as.auditing && len(am.auditor.activeCond.deps) == 0
+		if !(as.activated || (final && as.auditing) || startsUnprompted) {
 			// audience still dormant: not interested.
 			// (In the final round, every auditor still inside an
 			// activation period gets its end-of-period judgement, also
 			// when none of the variables it depends on was assigned.)
 			continue
 		}
-		am := au.cfg.audience[audienceName]
 		auCtx := logtags.AddTag(ctx, "auditor", audienceName)
 		if err := au.checkEventForAuditor(auCtx, as, am, final, ev); err != nil {
 			return err
